@@ -16,6 +16,38 @@ from .core import HarnessError
 LIBDIR = os.path.join(os.path.abspath(env.SRC), "ovld") + os.sep
 
 
+def _boot_code():
+    # the bootstrap entry point is first_entry's code under the function's own name (rename_code keeps the bytecode)
+    import ovld.core as oc
+
+    for c in oc.bootstrap_dispatch.__code__.co_consts:
+        if hasattr(c, "co_code") and c.co_name == "first_entry":
+            return c.co_code
+    return None
+
+
+BOOT_CO_CODE = _boot_code()
+
+
+def build_gate():
+    """Locations *before* a thread holds the build lock: the bootstrap entry point, ensure_compiled, and the
+    prologue of Ovld.compile up to its 'with self._lock'.  A thread preempted there has already decided to build."""
+    import inspect
+
+    import ovld.core as oc
+
+    lines, start = inspect.getsourcelines(oc.Ovld.compile)
+    lock_line = next((start + i for i, l in enumerate(lines) if "with self._lock" in l), start)
+
+    def gate(loc):
+        f, fn, ln = loc
+        if f != "core.py":
+            return False
+        return fn in ("first_entry", "ensure_compiled") or (fn == "compile" and start <= ln <= lock_line)
+
+    return gate
+
+
 def default_visible(code):
     fn = code.co_filename
     if fn.startswith("<ovld:"):
@@ -141,7 +173,7 @@ class Execution:
         if self.npoints > self.horizon:
             self.capped = True
         loc = (os.path.basename(frame.f_code.co_filename) if not frame.f_code.co_filename.startswith("<ovld:") else "<ovld>",
-               frame.f_code.co_name, frame.f_lineno)
+               "first_entry" if frame.f_code.co_code == BOOT_CO_CODE else frame.f_code.co_name, frame.f_lineno)
         self._switch(tid, self._choose(tid, loc))
 
     def block(self, tid, lock):
@@ -199,18 +231,23 @@ class Execution:
         return self
 
 
-def explore(make_bodies, check, bound, shard=0, nshards=1, visible=default_visible, stats=None, max_schedules=None):
+def explore(make_bodies, check, bound, shard=0, nshards=1, visible=default_visible, stats=None, max_schedules=None,
+            gate=None, gate_extra=0):
     """make_bodies() -> (bodies, context) builds fresh shared objects for one execution;
     check(execution, context) judges one complete execution.
-    Schedules are sharded by the index of their first deviation."""
+    Schedules are sharded by the index of their first deviation.
+    With ``gate`` (a predicate on locations): up to ``bound + gate_extra`` preemptions, of which at most ``bound``
+    lie outside the gate."""
     stats = stats if stats is not None else {}
     stats.setdefault("schedules", 0)
     stats.setdefault("max_points", 0)
     stats.setdefault("capped", 0)
 
-    def run(prefix, expect=None):
+    def run(prefix, expect=None, shared=False):
         bodies, ctx = make_bodies()
-        ex = Execution(bodies, prefix, visible).run()
+        ex = Execution(bodies, prefix, visible)
+        ex.shared_run = shared  # this execution is run by every shard (to be judged by one of them only)
+        ex.run()
         stats["schedules"] += 1
         stats["max_points"] = max(stats["max_points"], len(ex.points))
         stats["capped"] += ex.capped
@@ -223,18 +260,22 @@ def explore(make_bodies, check, bound, shard=0, nshards=1, visible=default_visib
         return ex
 
     def go(prefix, parent_points, ndev_budget, top):
-        ex = run(prefix, parent_points)
+        ex = run(prefix, parent_points, shared=top)
         cost_before = 0
+        outside_before = 0
         for i, p in enumerate(ex.points):
             if i < len(prefix):
                 if p[2] and p[1] != 0:
                     cost_before += 1
+                    if gate is None or not gate(p[3]):
+                        outside_before += 1
                 continue
             cost = cost_before + (1 if p[2] else 0)
-            if cost <= bound:
-                free = not p[2]
-                # executions without any preemption are run by every shard (cheap); the tree below
-                # them is split by the index of the first preemption
+            outside = outside_before + (1 if p[2] and (gate is None or not gate(p[3])) else 0)
+            if cost <= bound + (gate_extra if gate is not None else 0) and outside <= bound:
+                free = not p[2] or (gate is not None and gate(p[3]))
+                # executions without any preemption (or with preemptions at gate locations only) are run by
+                # every shard (cheap); the tree below them is split by the index of the first other preemption
                 if not top or free or i % nshards == shard:
                     base = [q[1] for q in ex.points[:i]]
                     for alt in range(1, p[0]):
